@@ -1,12 +1,12 @@
 (* C18 -- Subqueries and set operations follow SQL semantics.
-   Only statements: Theorem x : stmt. Proof. exact lemma. Qed. + Check pin + Print Assumptions. *)
+   Only statements: Theorem x : stmt. Proof. exact lemma. Qed. + Check pin + Print Assumptions,
+   and non-vacuity examples at the end. *)
 From Coq Require Import ZArith List Bool Arith.
-From TV Require Import Model.SqlSpec Model.SubqSpec Model.SubqImpl Model.SubqClass.
-From TV Require Import Proof.SetOpsBag Proof.SubqLaws.
+From TV Require Import Model.SqlSpec Model.SubqSpec Model.SubqImpl Model.SubqWf Model.SubqClass.
+From TV Require Import Proof.SetOpsBag Proof.SubqLaws Proof.SubqSelect Proof.SetOpsChain Proof.SubqMain Proof.SubqRefute.
 Import ListNotations.
 
-(* ------------------------------------------------------------------ set operations (set_ops.rs) *)
-(* the reference table of an operation has, for every row, exactly the multiplicity SQL defines *)
+(* the reference table of a set operation has, for every row, exactly the multiplicity SQL defines *)
 Theorem spec_op_has_defined_multiplicities : forall k all l r x,
   mult x (spec_op k all l r) = spec_mult k all (mult x l) (mult x r).
 Proof. exact spec_op_mult. Qed.
@@ -30,19 +30,16 @@ Check set_ops_all_correct_without_left_duplicates : forall k l r,
   dup_free l -> bag_eq (impl_op k true l r) (spec_op k true l r).
 Print Assumptions set_ops_all_correct_without_left_duplicates.
 
-(* ... and wrong otherwise: [1; 1] EXCEPT ALL [1], [1; 1] INTERSECT ALL [1] *)
-Theorem except_all_by_membership_refuted :
-  exists l r, ~ bag_eq (impl_op KExcept true l r) (spec_op KExcept true l r).
+(* ... and wrong otherwise: [1; 1] EXCEPT ALL [1] *)
+Theorem except_all_by_membership_refuted : exists l r, ~ bag_eq (impl_op KExcept true l r) (spec_op KExcept true l r).
 Proof. exact except_all_refuted. Qed.
-Check except_all_by_membership_refuted :
-  exists l r, ~ bag_eq (impl_op KExcept true l r) (spec_op KExcept true l r).
+Check except_all_by_membership_refuted : exists l r, ~ bag_eq (impl_op KExcept true l r) (spec_op KExcept true l r).
 Print Assumptions except_all_by_membership_refuted.
 
-Theorem intersect_all_by_membership_refuted :
-  exists l r, ~ bag_eq (impl_op KIntersect true l r) (spec_op KIntersect true l r).
+(* [1; 1] INTERSECT ALL [1] *)
+Theorem intersect_all_by_membership_refuted : exists l r, ~ bag_eq (impl_op KIntersect true l r) (spec_op KIntersect true l r).
 Proof. exact intersect_all_refuted. Qed.
-Check intersect_all_by_membership_refuted :
-  exists l r, ~ bag_eq (impl_op KIntersect true l r) (spec_op KIntersect true l r).
+Check intersect_all_by_membership_refuted : exists l r, ~ bag_eq (impl_op KIntersect true l r) (spec_op KIntersect true l r).
 Print Assumptions intersect_all_by_membership_refuted.
 
 (* the executable comparison used by the correspondence run decides bag equality *)
@@ -51,7 +48,55 @@ Proof. exact bag_eqb_spec. Qed.
 Check bag_check_decides_bag_equality : forall a b, bag_eqb a b = true <-> bag_eq a b.
 Print Assumptions bag_check_decides_bag_equality.
 
-(* ------------------------------------------------------------------ laws of the reference semantics *)
+(* comparing the standard and the right-associative reading of a chain on leaf NUMBERS decides whether they are the same tree *)
+Theorem same_reading_decides_the_two_parses : forall (A : Type) (c : gchain A), same_reading c = true -> parse_std c = parse_right c.
+Proof. exact (@same_reading_sound). Qed.
+Check same_reading_decides_the_two_parses : forall (A : Type) (c : gchain A), same_reading c = true -> parse_std c = parse_right c.
+Print Assumptions same_reading_decides_the_two_parses.
+
+(* every tree of UNION [ALL] / INTERSECT / EXCEPT over simple branches is evaluated as SQL defines *)
+Theorem set_operation_trees_correct : forall widths db t,
+  db_wf widths db = true -> tree_ok (leaf_simple widths) op_counted t ->
+  match qeval db [] (qry_of_tree t) with
+  | ROk b => exists a, impl_tree db t = MRows a /\ bag_eq a b
+  | RUndef => True
+  | RErr => False
+  end.
+Proof. exact tree_correct. Qed.
+Check set_operation_trees_correct : forall widths db t,
+  db_wf widths db = true -> tree_ok (leaf_simple widths) op_counted t ->
+  match qeval db [] (qry_of_tree t) with
+  | ROk b => exists a, impl_tree db t = MRows a /\ bag_eq a b
+  | RUndef => True
+  | RErr => False
+  end.
+Print Assumptions set_operation_trees_correct.
+
+(* MAIN: every well-formed statement outside the recorded finding classes that the model covers returns the bag of rows SQL defines (EXISTS / NOT EXISTS / IN as semi / anti joins on the hash and the nested-loop path, scalar subqueries, FROM (subquery), chains of set operations) *)
+Theorem statements_outside_finding_classes_correct : forall widths db (c : chain),
+  db_wf widths db = true -> stmt_wf widths c = true -> stmt_class widths db c = 0%Z ->
+  impl_stmt widths db c <> MUnm ->
+  agree (impl_stmt widths db c) (qeval db [] (chain_qry c)).
+Proof. exact class0_correct. Qed.
+Check statements_outside_finding_classes_correct : forall widths db (c : chain),
+  db_wf widths db = true -> stmt_wf widths c = true -> stmt_class widths db c = 0%Z ->
+  impl_stmt widths db c <> MUnm ->
+  agree (impl_stmt widths db c) (qeval db [] (chain_qry c)).
+Print Assumptions statements_outside_finding_classes_correct.
+
+(* every finding class 1 .. 12 contains a statement that the faithful model answers wrongly *)
+Theorem finding_classes_refuted : forall k, In k [1; 2; 3; 4; 5; 6; 7; 8; 9; 10; 11; 12]%Z -> exists w, refutes k w = true.
+Proof. exact known_classes_refuted. Qed.
+Check finding_classes_refuted : forall k, In k [1; 2; 3; 4; 5; 6; 7; 8; 9; 10; 11; 12]%Z -> exists w, refutes k w = true.
+Print Assumptions finding_classes_refuted.
+
+(* the executable form of `agree` *)
+Theorem agreement_check_decides_agreement : forall ws db c, meets ws db c = true <-> agree (impl_stmt ws db c) (qeval db [] (chain_qry c)).
+Proof. exact meets_agree. Qed.
+Check agreement_check_decides_agreement : forall ws db c, meets ws db c = true <-> agree (impl_stmt ws db c) (qeval db [] (chain_qry c)).
+Print Assumptions agreement_check_decides_agreement.
+
+(* laws of the reference semantics: EXISTS *)
 Theorem exists_true_iff_subquery_has_a_row : forall db env neg q t,
   qeval db env q = ROk t ->
   xeval db env (XExists neg q) = ROk (VBool (xorb neg (negb (is_nil t)))).
@@ -61,6 +106,12 @@ Check exists_true_iff_subquery_has_a_row : forall db env neg q t,
   xeval db env (XExists neg q) = ROk (VBool (xorb neg (negb (is_nil t)))).
 Print Assumptions exists_true_iff_subquery_has_a_row.
 
+Theorem exists_is_never_unknown : forall db env neg q, xeval db env (XExists neg q) <> ROk VNull.
+Proof. exact exists_never_unknown. Qed.
+Check exists_is_never_unknown : forall db env neg q, xeval db env (XExists neg q) <> ROk VNull.
+Print Assumptions exists_is_never_unknown.
+
+(* scalar subqueries *)
 Theorem scalar_subquery_without_row_is_null : forall db env q,
   qeval db env q = ROk [] -> xeval db env (XScalar q) = ROk VNull.
 Proof. exact scalar_no_row_is_null. Qed.
@@ -75,7 +126,7 @@ Check scalar_subquery_with_many_rows_is_error : forall db env q r1 r2 t,
   qeval db env q = ROk (r1 :: r2 :: t) -> xeval db env (XScalar q) = RErr.
 Print Assumptions scalar_subquery_with_many_rows_is_error.
 
-(* IN is TRUE exactly on membership (a semi join is a sound reading of IN, NULLs or not) *)
+(* IN is TRUE exactly on membership: a semi join is a sound reading of IN, NULLs or not *)
 Theorem in_true_iff_some_element_equal : forall x ys,
   forallb (eq_def x) ys = true ->
   (in_vals x ys = Some TT <-> existsb (eq_tt x) ys = true).
@@ -85,6 +136,16 @@ Check in_true_iff_some_element_equal : forall x ys,
   (in_vals x ys = Some TT <-> existsb (eq_tt x) ys = true).
 Print Assumptions in_true_iff_some_element_equal.
 
+(* NOT IN is TRUE exactly when every element compares FALSE *)
+Theorem not_in_true_iff_all_elements_differ : forall x ys,
+  forallb (eq_def x) ys = true ->
+  (opt_tv_neg true (in_vals x ys) = Some TT <-> forallb (eq_ff x) ys = true).
+Proof. exact not_in_true_iff_all_differ. Qed.
+Check not_in_true_iff_all_elements_differ : forall x ys,
+  forallb (eq_def x) ys = true ->
+  (opt_tv_neg true (in_vals x ys) = Some TT <-> forallb (eq_ff x) ys = true).
+Print Assumptions not_in_true_iff_all_elements_differ.
+
 (* NOT IN with a NULL among the elements is never TRUE *)
 Theorem not_in_with_null_never_true : forall x ys,
   In VNull ys -> opt_tv_neg true (in_vals x ys) <> Some TT.
@@ -93,7 +154,13 @@ Check not_in_with_null_never_true : forall x ys,
   In VNull ys -> opt_tv_neg true (in_vals x ys) <> Some TT.
 Print Assumptions not_in_with_null_never_true.
 
-(* the anti-join reading of NOT IN is exact without NULLs and wrong with them *)
+(* NULL NOT IN (non-empty) is never TRUE *)
+Theorem null_not_in_nonempty_never_true : forall ys, ys <> [] -> opt_tv_neg true (in_vals VNull ys) <> Some TT.
+Proof. exact null_not_in_unknown. Qed.
+Check null_not_in_nonempty_never_true : forall ys, ys <> [] -> opt_tv_neg true (in_vals VNull ys) <> Some TT.
+Print Assumptions null_not_in_nonempty_never_true.
+
+(* the anti-join reading of NOT IN is exact without NULLs ... *)
 Theorem not_in_as_anti_join_when_null_free : forall x ys, all_int ys ->
   opt_tv_neg true (in_vals (VInt x) ys) = Some (tv_of_bool (anti_join_keeps (VInt x) ys)).
 Proof. exact not_in_as_antijoin. Qed.
@@ -101,16 +168,21 @@ Check not_in_as_anti_join_when_null_free : forall x ys, all_int ys ->
   opt_tv_neg true (in_vals (VInt x) ys) = Some (tv_of_bool (anti_join_keeps (VInt x) ys)).
 Print Assumptions not_in_as_anti_join_when_null_free.
 
-Theorem anti_join_unsound_with_null :
-  (anti_join_keeps (VInt 3) [VInt 1; VNull] = true /\ opt_tv_neg true (in_vals (VInt 3) [VInt 1; VNull]) = Some UU) /\
+(* ... and wrong with them *)
+Theorem anti_join_unsound_with_null : (anti_join_keeps (VInt 3) [VInt 1; VNull] = true /\ opt_tv_neg true (in_vals (VInt 3) [VInt 1; VNull]) = Some UU) /\
   (anti_join_keeps VNull [VInt 1] = true /\ opt_tv_neg true (in_vals VNull [VInt 1]) = Some UU).
 Proof. exact antijoin_unsound_with_null. Qed.
-Check anti_join_unsound_with_null :
-  (anti_join_keeps (VInt 3) [VInt 1; VNull] = true /\ opt_tv_neg true (in_vals (VInt 3) [VInt 1; VNull]) = Some UU) /\
+Check anti_join_unsound_with_null : (anti_join_keeps (VInt 3) [VInt 1; VNull] = true /\ opt_tv_neg true (in_vals (VInt 3) [VInt 1; VNull]) = Some UU) /\
   (anti_join_keeps VNull [VInt 1] = true /\ opt_tv_neg true (in_vals VNull [VInt 1]) = Some UU).
 Print Assumptions anti_join_unsound_with_null.
 
 (* ------------------------------------------------------------------ non-vacuity *)
+(* well-formed, class-0, model-covered statements of every form: [NOT] EXISTS (hash / nested loop),
+   IN (hash / nested loop / correlated), scalar subqueries, FROM (subquery) twice nested, set
+   operations -- and the model's answer on them IS the reference's *)
+Example main_theorem_hypotheses_satisfiable :
+  forallb covered [ex_hash; nex_nl; in_hash; in_nl; in_corr; sc_one; from2; set1; set2] = true.
+Proof. exact class0_inhabited. Qed.
 Example dup_free_inhabited : dup_free [[VInt 1]; [VNull]].
 Proof. intro x. cbn [mult]. destruct (srow_eqb x [VInt 1]) eqn:E1; destruct (srow_eqb x [VNull]) eqn:E2; cbn; try auto with arith.
   apply srow_eqb_eq in E1. apply srow_eqb_eq in E2. congruence. Qed.
@@ -118,3 +190,6 @@ Example eq_def_inhabited : forallb (eq_def (VInt 1)) [VInt 1; VNull; VInt 2] = t
 Proof. reflexivity. Qed.
 Example all_int_inhabited : all_int [VInt 1; VInt 2].
 Proof. intros y [H|[H|[]]]; subst; eexists; reflexivity. Qed.
+Example tree_ok_inhabited : tree_ok (leaf_simple [3%nat; 3%nat]) op_counted
+  (TNode KUnion false (TLeaf (leaf 0 1)) (TNode KExcept false (TLeaf (leaf 1 1)) (TLeaf (leaf 0 2)))).
+Proof. cbn [tree_ok]. unfold op_counted, leaf_simple. repeat split; auto. Qed.
